@@ -93,6 +93,17 @@ class MetaEval(Evaluator):
             nm = call_name(e)
             if nm in WRAPPERS and len(e.args) == 1 and not (nm in ("asarray", "array") and isinstance(e.args[0], (ast.List, ast.ListComp))):
                 return self.ev(e.args[0])
+            if nm == "count" and isinstance(e.func, ast.Attribute) and len(e.args) == 1 and isinstance(e.args[0], ast.Constant) and e.args[0].value == ")(" \
+                    and "imroTbl" in src(e.func.value) + str(getattr(self, "imro_names", "")) or \
+                    (nm == "count" and isinstance(e.func, ast.Attribute) and isinstance(e.func.value, ast.Name) and e.func.value.id in getattr(self, "imro_names", ())
+                     and len(e.args) == 1 and isinstance(e.args[0], ast.Constant) and e.args[0].value == ")("):
+                return Poly.sym("NENT")   # number of IMRO site entries (one ")(" in front of each); at least one per saved analog channel (model assumption, as for findall(..)[:n])
+            if nm == "min" and len(e.args) == 2:
+                a_, b_ = self.ev(e.args[0]), self.ev(e.args[1])
+                if b_ == Poly.sym("NENT"):
+                    return a_
+                if a_ == Poly.sym("NENT"):
+                    return b_
             if nm == "_get_nchannels_from_meta":
                 return Poly.sym("NC")
             if nm == "_get_max_int_from_meta":
@@ -418,11 +429,18 @@ class SegExtractor(Extractor):
         t = e.value
         if isinstance(t, ast.Name) and t.id in self.tables:
             cnt = self.tables[t.id]
+            off = self.table_offsets.get(t.id, 0)
         else:
             cnt = self._table(t)
+            off = self._last_table_offset
         if cnt is None:
             return None
-        return ArrVal(cnt, [Event(Poly.const(0), cnt, self.tag(Poly.sym(f"G{k % self.ev.nfields}"), True), Poly.const(0), None, e)])
+        # a table built from the LAST fields of each entry (g.split(' ')[-2:]) starts at field nfields - 2: column k is field offset + k
+        fld = (off + k) if off else k
+        return ArrVal(cnt, [Event(Poly.const(0), cnt, self.tag(Poly.sym(f"G{fld % self.ev.nfields}"), True), Poly.const(0), None, e)])
+
+    table_offsets: Dict[str, int] = {}
+    _last_table_offset = 0
 
     tables: Dict[str, Poly] = {}
 
@@ -436,6 +454,15 @@ class SegExtractor(Extractor):
             else:
                 return None
         if isinstance(cur, (ast.ListComp, ast.GeneratorExp)) and len(cur.generators) == 1 and "split" in src(cur.elt):
+            self._last_table_offset = 0
+            el = cur.elt
+            if isinstance(el, ast.Subscript) and isinstance(el.slice, ast.Slice) and el.slice.upper is None and el.slice.step is None and el.slice.lower is not None:
+                ok_, lo_ = const_value(el.slice.lower)
+                if not (ok_ and isinstance(lo_, int)):
+                    return None
+                self._last_table_offset = lo_ % self.ev.nfields
+            elif isinstance(el, ast.Subscript):
+                return None
             return self._entries(cur.generators[0].iter)
         return None
 
@@ -456,7 +483,34 @@ class SegExtractor(Extractor):
         import copy
         return ast.fix_missing_locations(R().visit(copy.deepcopy(s)))
 
+    def _first_entry_fields(self, s: ast.stmt) -> bool:
+        """a, b = m.group(1).split(' ')[-2:]  with m the first site entry: a, b are that ENTRY 0's fields (symbols G<k>, shared with the per-entry vectors)."""
+        if not (isinstance(s, ast.Assign) and len(s.targets) == 1 and isinstance(s.targets[0], ast.Tuple) and all(isinstance(t, ast.Name) for t in s.targets[0].elts)):
+            return False
+        v = s.value
+        if isinstance(v, ast.IfExp):
+            d = self.decide(v.test)
+            if d is None:
+                return False
+            v = v.body if d else v.orelse
+        if not (isinstance(v, ast.Subscript) and isinstance(v.slice, ast.Slice) and v.slice.upper is None and v.slice.step is None and v.slice.lower is not None
+                and isinstance(v.value, ast.Call) and call_name(v.value) == "split"):
+            return False
+        base = v.value.func.value
+        if not (isinstance(base, ast.Call) and call_name(base) == "group" and isinstance(base.func.value, ast.Name) and base.func.value.id in getattr(self, "first_entry", ())):
+            return False
+        ok_, lo_ = const_value(v.slice.lower)
+        if not (ok_ and isinstance(lo_, int) and lo_ < 0 and -lo_ == len(s.targets[0].elts)):
+            return False
+        for j, t in enumerate(s.targets[0].elts):
+            self.ev.env[t.id] = Poly.sym(f"G{(lo_ + j) % self.ev.nfields}")
+            self.arr.pop(t.id, None)
+        self.entry0_names = getattr(self, "entry0_names", set()) | {t.id for t in s.targets[0].elts}
+        return True
+
     def step(self, s: ast.stmt):
+        if self._first_entry_fields(s):
+            return
         if isinstance(s, (ast.Assign, ast.Return, ast.AugAssign)):
             s = self._resolve_ifexp(s)
         if isinstance(s, ast.Assign) and len(s.targets) == 1 and isinstance(s.targets[0], (ast.Tuple, ast.List)) \
@@ -518,7 +572,16 @@ class SegExtractor(Extractor):
             if tb is not None:
                 self.tables = dict(self.tables)
                 self.tables[nm] = tb
+                self.table_offsets = dict(self.table_offsets)
+                self.table_offsets[nm] = self._last_table_offset
                 return
+            # m = <regex>.search(<imro table>): the first site entry; it exists whenever the table has an entry (model assumption: at least one per analog channel)
+            if isinstance(s.value, ast.Call) and call_name(s.value) == "search" and ("imroTbl" in src(s.value) or any(isinstance(a_, ast.Name) and a_.id in getattr(self.ev, "imro_names", ()) for a_ in s.value.args)):
+                self.bools[nm] = True
+                self.first_entry = getattr(self, "first_entry", set()) | {nm}
+                return
+            if isinstance(s.value, ast.Subscript) and isinstance(s.value.slice, ast.Constant) and s.value.slice.value == "imroTbl":
+                self.ev.imro_names = tuple(getattr(self.ev, "imro_names", ())) + (nm,)
             le = self._list_elts(s.value) if not isinstance(s.value, ast.Name) else None
             if le is not None and self.value(s.value) is None:
                 self.lists = dict(self.lists)
